@@ -1,5 +1,5 @@
 """Per-property checks.  Each returns an Outcome; `check` prints the verdict lines and writes the evidence."""
-import os, sys, json, random, itertools, collections, time, subprocess
+import os, re, sys, json, random, itertools, collections, time, subprocess
 import vlib, gram, gengram, pipeline, prun
 from vlib import Infra
 
@@ -843,7 +843,9 @@ def check_C16(tier, seed):
         entries.append(pipeline.lex_entry('c16lex%d' % li, ts))
     # terms of which one is a proper prefix of another with a NON-accepting stretch between them ('.' and "...", a number and
     # "1..2"): the lexer runs past the shorter lexeme and must come back to it - with and without the verbose lines
-    entries.append(pipeline.lex_entry('c16lexfb', [lxl.S('...'), lxl.C('.'), lxl.R('[0-9]+'), lxl.S('1..2')]))
+    # (no term shares characters with the number pattern: a set like {[0-9]+, "1..2"} runs into known finding K1 - the real
+    #  lexer takes "0..2" for the string term - which is C03 / C04's business, not a verbosity matter)
+    entries.append(pipeline.lex_entry('c16lexfb', [lxl.S('...'), lxl.C('.'), lxl.R('[0-9]+'), lxl.S('+.+'), lxl.C('+')]))
     # a parser with a custom lexical analyzer: its verbose trace must report the recognised terms as well
     cat_ = {g.name: g for g in catalogue()}
     eclex = pipeline.clex_entry(cat_['paren_list'], gid='c16clex@clex')
@@ -860,7 +862,7 @@ def check_C16(tier, seed):
                 ins.append(sx)
                 if len(ins) >= (250 if tier == 'quick' else 2000):
                     break
-            ins += [list(b'if 12+3 ++ if7'), list(b'123456+++if'), list(b'..'), list(b'1..'), list(b'1..1'), list(b'.....'), list(b'1..2'), list(b'... ..'), list(b'12. 5'), list(b'1.')]
+            ins += [list(b'if 12+3 ++ if7'), list(b'123456+++if'), list(b'..'), list(b'1..'), list(b'+.'), list(b'.....'), list(b'+.+'), list(b'... ..'), list(b'12. 5'), list(b'+.1'), list(b'+..+')]
         else:
             ins = ws_inputs(e.g, L if len(e.g.ts) <= 3 else L - 1, [ord('?'), 32], 250 if tier == 'quick' else 2000)
         for (v, st) in ((1, 0), (0, 0), (1, 1), (0, 1), (1, 2), (0, 2)):
@@ -948,8 +950,8 @@ def check_C05(tier, seed):
         combos = list(itertools.product(choices, repeat=len(ops)))
         if tier == 'quick' and len(combos) > 30:
             combos = rng.sample(combos, 30)
-        elif len(combos) > 250:
-            combos = rng.sample(combos, 250)
+        elif len(combos) > 60:
+            combos = rng.sample(combos, 60)       # (the catalogue of S/R grammars grew to 27: 250 assignments each were 5.9 million calls)
         entries += entries_for(g, hosts=(0,), gen=True)
         for ci, combo in enumerate(combos):
             tp = {o: c[0] for o, c in zip(ops, combo)}
@@ -977,7 +979,7 @@ def check_C05(tier, seed):
         except ValueError:
             pass
     for e in entries:
-        pipeline.add_jobs(e, all_inputs(e.g, L if len(e.g.ts) <= 3 else L - 1, 400 if tier == 'quick' else 1500), verbose=True)
+        pipeline.add_jobs(e, all_inputs(e.g, L if len(e.g.ts) <= 3 else L - 1, 400 if tier == 'quick' else (500 if re.search(r'_a\d+$', e.g.name) else 1500)), verbose=True)
         for s in gengram.sentences(e.g, rng, 3 if tier == 'quick' else 12, max_len=25 if tier == 'quick' else 80):
             pipeline.add_jobs(e, [s], tag='s')
     # design level: on operator grammars the tree the specification builds from its resolved table must be the tree the four
@@ -1350,7 +1352,9 @@ def grammar_wf_check(tier, work):
     base_rules = [('S', ['A', 'a']), ('S', ['b']), ('A', ['a', 'A']), ('A', [])]
 
     def add(name, nterms, terms, root, rules, objs_nt, objs_t):
-        variants.append({'id': name, 'nterms': nterms, 'terms': terms, 'root': root, 'rules': [{'l': l, 'r': r} for l, r in rules], 'objs_nt': objs_nt, 'objs_t': objs_t})
+        # a right-side symbol is a name (a nonterminal object if one of that name exists, else a term object) or (kind, name)
+        kinded = lambda x: {'k': x[0], 's': x[1]} if isinstance(x, tuple) else {'k': 'n' if x in objs_nt else 't', 's': x}
+        variants.append({'id': name, 'nterms': nterms, 'terms': terms, 'root': root, 'rules': [{'l': l, 'r': [kinded(x) for x in r]} for l, r in rules], 'objs_nt': objs_nt, 'objs_t': objs_t})
     add('ok', ['S', 'A'], ['a', 'b'], 'S', base_rules, ['S', 'A'], ['a', 'b'])
     add('ok_unused', ['S', 'A', 'U'], ['a', 'b', 'q'], 'S', base_rules, ['S', 'A', 'U'], ['a', 'b', 'q'])
     add('undeclared_term_in_rule', ['S', 'A'], ['a'], 'S', base_rules, ['S', 'A'], ['a', 'b'])
@@ -1372,6 +1376,10 @@ def grammar_wf_check(tier, work):
     add('undeclared_high_bit_term', ['S', 'A'], ['\xc3', 'b'], 'S', [('S', ['A', '\xc3']), ('S', ['b']), ('A', ['\xa3', 'A']), ('A', [])], ['S', 'A'], ['\xc3', 'b', '\xa3'])
     add('ok_ctl_terms_all_declared', ['S'], ['\x01', '\x11', '\x81'], 'S', [('S', ['\x01', '\x11']), ('S', ['\x81'])], ['S'], ['\x01', '\x11', '\x81'])
     add('ok_prefix_names_all_declared', ['S', 'SS'], ['a', 'ab'], 'S', [('S', ['SS', 'a']), ('SS', ['ab'])], ['S', 'SS'], ['a', 'ab'])
+    # a term and a nonterminal of the SAME name: declaring one does not declare the other
+    add('undeclared_term_named_like_declared_nterm', ['S', 'item'], ['a'], 'S', [('S', [('t', 'item'), 'a']), ('item', ['a'])], ['S', 'item'], ['a', 'item'])
+    add('undeclared_nterm_named_like_declared_term', ['S'], ['a', 'num'], 'S', [('S', [('n', 'num'), 'a']), ('S', [('t', 'num')])], ['S', 'num'], ['a', 'num'])
+    add('ok_term_and_nterm_share_a_name', ['S', 'item'], ['a', 'item'], 'S', [('S', [('n', 'item'), ('t', 'item')]), ('item', ['a'])], ['S', 'item'], ['a', 'item'])
     items = []
     jobs = []
     inc = os.path.join(vlib.REPO, 'include')
@@ -1388,7 +1396,7 @@ def grammar_wf_check(tier, work):
                 body.append('char_term %s(\'%s\');' % (var, t) if 32 < o1 < 127 and t not in "'\\" else 'char_term %s(char(%d));' % (var, o1 if o1 < 128 else o1 - 256))
             else:
                 body.append('string_term %s("%s");' % (var, t))
-        rl = ['%s(%s) >= [](auto&&...) { return 0; }' % (ntv[r['l']], ', '.join(ntv[x] if x in ntv else tv[x] for x in r['r'])) for r in v['rules']]
+        rl = ['%s(%s) >= [](auto&&...) { return 0; }' % (ntv[r['l']], ', '.join(ntv[x['s']] if x['k'] == 'n' else tv[x['s']] for x in r['r'])) for r in v['rules']]
         pexpr = 'parser(%s, terms(%s), nterms(%s), rules(%s))' % (ntv[v['root']], ', '.join(tv[t] for t in v['terms']), ', '.join(ntv[n] for n in v['nterms']), ', '.join(rl))
         rt = decl + ['int main() { try {'] + ['  ' + b for b in body] + ['  auto* p = new auto(%s); (void)p; printf("CONSTRUCTED\\n"); return 0;' % pexpr,
                                                                        '} catch (const std::exception& e) { printf("THREW %s\\n", e.what()); return 0; } }']
@@ -1557,6 +1565,22 @@ def check_C04(tier, seed):
         out.notes.append('lx driver died (exit %s) near %s' % (rc, lxl.set_text(j[0][1]) if j else '?'))
     byid = {j[0]: j for j in jobs}
     items, ref, model, static, st, tr, runs = lx_items_check(recs, 'C04tlc', tlc_procs=4 if tier == 'quick' else 8)
+    # ---- what each regex term's PATTERN denotes: the term-set model above follows the builder calls the real front end made
+    # for a pattern; here those calls are compared with the documented reading of the pattern (RegexSyntax!Doc) - a term
+    # whose pattern is read differently delivers other lexemes than the grammar's author wrote
+    upats = []
+    for ts in sets:
+        for t in ts:
+            if t[0] == 'R' and list(t[1]) not in upats:
+                upats.append(list(t[1]))
+    pjobs = [('tp%d' % i, pt, []) for i, pt in enumerate(upats)]
+    precs, _, _ = rxl.run_rx(pjobs, 'C04pat')
+    sprobs, _, st_s, tr_s = syntax_check(precs, 'C04syn', tlc_procs=4)
+    st += st_s; tr += tr_s
+    for d in sprobs:
+        if d['why'][0] in ('meaning', 'rejected-documented'):
+            out.violations.append({'summary': {'term_pattern': pat_text(d['pat']), 'class': 'a regex term\'s pattern is not read as documented (%s): the term matches other lexemes than its pattern denotes' % d['why'][0],
+                                               'library_accepts': d['valid']}, 'kind': 'rx', 'pattern': d['pat']})
     # ---- execute witnesses on the real dfa_match
     wjobs = []
     for lid in set(ref) | set(model):
@@ -1599,11 +1623,17 @@ def check_C04(tier, seed):
     pick += [j for j in good if j[1] in lxl.FAMILIES[-4:] and j not in pick]
     entries = []
     seen_pick = set()
+    rec_by = {j[0]: r for j, r in zip(jobs, recs)}
     for (lid, ts, _) in pick:
         if lid in seen_pick:
             continue
         seen_pick.add(lid)
         if not pipeline.unique_term_names(ts):
+            continue
+        rec0 = rec_by.get(lid)
+        if rec0 and rec0.get('dfa') and (rec0['dfa'][0].get('end') or rec0['dfa'][0].get('rec')):
+            # a term of this set matches the EMPTY string (e.g. r(((ac)*)*)): outside the domain of parsers ("terms cannot
+            # match the empty string" - such a parser shifts zero-length terms for ever); the automaton layer above covers it
             continue
         e = pipeline.lex_entry('ls' + lid, ts)
         special = set(b'[]()*+?|{}\\^-.')
@@ -1696,6 +1726,18 @@ def check_C06(tier, seed):
     domain = {e.gid for e in entries}
     judge_traces(out, entries, res, {'oob', 'extra:oobread', 'extra:oobiter', 'extra:oobview', 'extra:oob', 'threw', 'partial-line'}, domain)
     judge_traces(out, [el], res, {'functor', 'step', 'verdict', 'report', 'extra', 'tree'}, {el.gid})     # the long lexeme must come out as ONE term
+    # every lexeme handed to a term functor lies INSIDE the caller's buffer (its offset is known): a view into anything else -
+    # a copy the library made, the storage of a buffer this one was copied or moved from - is a read outside the buffer
+    nout = 0
+    for e in entries:
+        for t in e.traces:
+            bad = [ev for ev in t['events'] if ev[0] == 'tval' and ev[2] < 0]
+            if bad and nout < 3:
+                nout += 1
+                v = trace_violation(e, {'id': t['id'], 'g': e.gid, 'why': ['lexeme-outside-buffer', 0], 'trace': t}, 'a lexeme handed to a functor does not lie in the caller\'s buffer (read outside the buffer)')
+                v['summary']['real_event'] = bad[0]
+                v['summary']['buffer_kind'] = t['buf']
+                out.violations.append(v)
     for gid, rc in res.crashed:
         e = [x for x in entries if x.gid == gid][0]
         done = {t['id'] for t in e.traces}
@@ -2022,7 +2064,7 @@ def check_C07(tier, seed):
             if len(p) == 4:
                 got[int(p[0])][p[1]] = (int(p[2]), int(p[3]))
         for i, c in enumerate(cases):
-            for how in ('cstring,ctobj', 'cstring,rtobj', 'string,ctobj', 'string,rtobj', 'view,ctobj', 'view,rtobj'):
+            for how in ('cstring,ctobj', 'cstring,rtobj', 'string,ctobj', 'string,rtobj', 'string-moved,ctobj', 'string-copied,rtobj', 'view,ctobj', 'view,rtobj'):
                 nrt += 1
                 g2 = got.get(i, {}).get(how)
                 exp = (1, c['val']) if c['ok'] else (0, 0)
@@ -2172,15 +2214,46 @@ def check_C12(tier, seed):
     # ---- (c) default LR caps, (d) custom limits around the need
     names = ['expr_strat', 'paren_list', 'closure_memo', 'lr1_not_lalr', 'nullable_prefix'] + ([] if tier == 'quick' else ['first_cycle', 'll_pal', 'two_lists', 'expr_amb', 'unit_chain'])
     base = [pipeline.gen_entry(cat[n], gid=n + '@deflim') for n in names]
+    # a grammar with MORE LR(1) states than the default state cap (the cap is the number of situations; the canonical
+    # collection of the right-linear grammar of (a|b)* a (a|b)^7 is exponential in the suffix): once with the default limits
+    # (K3: they do not suffice - construction must then fail loudly), once with sufficient custom limits (how much is needed)
+    gbig = gram.Grammar('rl_suffix7', ['S', 'A', 'B', 'C', 'D', 'E', 'F', 'G'], ['a', 'b'], 'S',
+                        [('S', ['a', 'S'], 0), ('S', ['b', 'S'], 0), ('S', ['a', 'A'], 0)] +
+                        [(x, [t, y], 0) for x, y in zip('ABCDEF', 'BCDEFG') for t in 'ab'] + [('G', ['a'], 0), ('G', ['b'], 0)])
+    ebig_def = pipeline.gen_entry(gbig, gid='rl_suffix7@deflim')
+    ebig_lim = pipeline.gen_entry(gbig, gid='rl_suffix7@lim', limits=(400, 400))
     all_default = []
     for g in catalogue():
         all_default += entries_for(g, hosts=(0, 1, 2), gen=False)
-    res0, work0 = prun.run(base + all_default + lex_entries, 'C12a', design_L=None, do_product=True, do_traces=False, tlc_procs=4 if tier == 'quick' else 8, tlc_workers=2)
+    # (the default-limits construction of the big grammar is run on its own: if it does NOT fail, what it produced was
+    #  built past the library's tables and is judged as such, never handed to TLC as a table)
+    big_died = None
+    try:
+        pipeline.run_harness([ebig_def], 'C12big')
+    except Infra as ex:
+        big_died = str(ex)[:300]
+    res0, work0 = prun.run(base + [ebig_lim] + all_default + lex_entries, 'C12a', design_L=None, do_product=True, do_traces=False, tlc_procs=4 if tier == 'quick' else 8, tlc_workers=2)
     st_total += res0.states; tr_total += res0.transitions; runs += res0.tlc_runs
     for gid, d in res0.caps.items():
         out.violations.append({'summary': {'grammar': gid, 'class': 'capacity: ' + str(d['why'][0]), 'detail': d['why']}, 'kind': 'caps', 'gid': gid})
-    for gid, msg in res0.construct_threw.items():
+    need_big = res0.capsok.get(ebig_lim.gid)
+    threw_all = dict(res0.construct_threw)
+    if ebig_def.construct_threw is not None:
+        threw_all[ebig_def.gid] = ebig_def.construct_threw
+    for gid, msg in threw_all.items():
+        k3 = known_match('C12', 'default-state-cap')
+        if gid == ebig_def.gid and k3 and need_big and need_big['states'] > need_big['defcap'] and 'State count exceeds the cap' in str(msg):
+            out.known.append('K3 the default state cap (the number of situations) is not an upper bound of the number of LR(1) states: %s needs %d states, the default cap is %d - '
+                             'construction with the default limits fails loudly ("%s"); with limits (400, 400) the parser is the specification\'s' % (gbig.name, need_big['states'], need_big['defcap'], msg))
+            continue
         out.violations.append({'summary': {'grammar': gid, 'class': 'construction with DEFAULT limits failed', 'message': msg}, 'kind': 'caps', 'gid': gid})
+    if ebig_def.gid not in threw_all:
+        # more states than the cap and NO loud failure: whatever was produced was built past the library's own tables
+        out.violations.append({'summary': {'grammar': ebig_def.gid, 'class': 'capacity: the grammar needs more states than the default cap and construction did NOT fail',
+                                           'needs': need_big and need_big['states'], 'default_cap': need_big and need_big['defcap'],
+                                           'reported_state_count': ebig_def.dump and ebig_def.dump.get('state_count'), 'process': big_died or (ebig_def.crashed and 'exit %s' % ebig_def.crashed)}, 'kind': 'caps', 'gid': ebig_def.gid})
+    if not need_big:
+        out.violations.append({'summary': {'grammar': ebig_lim.gid, 'class': 'capacity: a parser built with sufficient custom limits (400, 400) is not the specification\'s', 'threw': res0.construct_threw.get(ebig_lim.gid)}, 'kind': 'caps', 'gid': ebig_lim.gid})
     lim_entries, expect = [], {}
     for e in base:
         ok = res0.capsok.get(e.gid)
@@ -2322,7 +2395,7 @@ def check_C13(tier, seed):
         sents = gengram.sentences(e.g, rng, 5 if tier == 'quick' else 25, max_len=40)
         # blanks and newlines between the terms (the overloads without an options argument must mean the default options)
         wsin = [x for x in ws_inputs(e.g, 3, [32, 10], 400) if 32 in x or 10 in x][::7][:40 if tier == 'quick' else 200]
-        cats = (1, 2, 3, 4, 5) if e.ctx else (0, 1, 2, 3, 4, 5)
+        cats = (1, 2, 3, 4, 5, 6) if e.ctx else (0, 1, 2, 3, 4, 5, 6)       # 6: a context type that overloads unary &
         for c in cats:
             pipeline.add_jobs(e, ins if c in (1, 2) else ins[::3], verbose=(c == 1), ctx=c, tag='c%d_' % c)
             pipeline.add_jobs(e, sents, verbose=False, ctx=c, tag='s%d_' % c)
@@ -2419,6 +2492,10 @@ def check_C14(tier, seed):
         ins = ws_inputs(e.g, L if len(e.g.ts) <= 3 else L - 1, [ord('?')], 400 if tier == 'quick' else 3000)      # success, syntax errors, lexical errors, recovery
         cx = rng.choice([1, 3, 4, 5]) if getattr(e, 'ctx', ()) else 0
         pipeline.add_jobs(e, ins, verbose=False, ctx=cx)
+        if e.g.name in ('paren_list', 'expr_strat') and (e.gid.endswith('@valmt') or e.gid.endswith('@val')):
+            # hundreds of values pending at once (the value stack is reserved for 1024 before a parse: no growth, hence no
+            # relocation of values, below that; beyond it std::vector relocates - see DESIGN section 6, observations)
+            pipeline.add_jobs(e, [[40] * d + [ord('x' if e.g.name == 'paren_list' else 'n')] + [41] * d for d in (70, 300)], verbose=False, tag='deep')
         for s in gengram.sentences(e.g, rng, 5 if tier == 'quick' else 30, max_len=60 if tier == 'quick' else 300):
             pipeline.add_jobs(e, [s], verbose=False, tag='s', ctx=cx)
             if s:
